@@ -179,15 +179,16 @@ def lookup (m : Str → Str → Bool) (pick : Route → Target) (t : Table) (hos
   lookupRoutes m pick path (t.get (lowerL host))
 
 /-- the loop of `Lookup` over the host list: `last` is the value the variable `target` holds when the loop
-ends without a `break` (a skipped redirect target of the last host stays in it). The result names the
-host key that was looked up. -/
+ends without a `break`. Since the C13 repair b42ae83 a skipped self-redirect is dropped (`target = nil`
+before `continue`), so `last` stays `none`: a skip on the last host ends with "no route". The result names
+the host key that was looked up. -/
 def lookupHosts (look : Str → Option (Route × Target)) (skip : Target → Bool) :
     List Str → Option (Str × Route × Target) → Option (Str × Route × Target)
   | [], last => last
   | h :: hs, _ =>
     match look h with
     | none => lookupHosts look skip hs none
-    | some (r, tg) => if skip tg then lookupHosts look skip hs (some (h, r, tg)) else some (h, r, tg)
+    | some (r, tg) => if skip tg then lookupHosts look skip hs none else some (h, r, tg)
 
 structure Cfg where
   /-- compiled host glob: `globMatch pattern host` -/
